@@ -31,25 +31,62 @@ class Lock:
         self.f.close()
 
 
-def coq_make(pre=None):
-    """Full .vo build of the development (a no-op when fresh). `pre` runs inside the lock first
-    (the C07 translator regenerates Gen/*.v there).  Returns (ok, log)."""
+def run_translator():
+    """Regenerate Gen/Cdp2adp_gen.v from /repo/mechanisms/cdp2adp.py (only rewritten when the text changes).
+    Returns (ok, message). On failure the previous file is left in place (other properties are unaffected)."""
+    dst = os.path.join(COQ, 'Gen', 'Cdp2adp_gen.v')
+    tmp = dst + '.new'
+    rc, out = sh([sys.executable, os.path.join(VERIF, 'translator', 'py2gallina.py'), os.path.join(REPO, 'mechanisms', 'cdp2adp.py'), tmp,
+                  'cdp_delta_standard', 'cdp_delta', 'cdp_eps', 'cdp_rho'])
+    if rc != 0:
+        if os.path.exists(tmp):
+            os.remove(tmp)
+        return False, out.strip()
+    new = open(tmp).read()
+    if not os.path.exists(dst) or open(dst).read() != new:
+        os.replace(tmp, dst)
+    else:
+        os.remove(tmp)
+    return True, ''
+
+
+def _newest(dirs, exts):
+    t = 0
+    for d in dirs:
+        for r, _, fs in os.walk(os.path.join(VERIF, d)):
+            for f in fs:
+                if f.endswith(exts):
+                    t = max(t, os.path.getmtime(os.path.join(r, f)))
+    return t
+
+
+def coq_make(prop):
+    """Regenerate the translated file, full .vo build of the development (a no-op when fresh), rebuild the
+    extracted model runners when stale.  Returns dict(ok, log, translator_ok, translator_msg): ok refers to
+    Props/<prop>.vo and everything it depends on."""
     with Lock('coq'):
-        if pre is not None:
-            pre()
+        tok, tmsg = run_translator()
         if not os.path.exists(os.path.join(COQ, 'Makefile')):
             sh('coq_makefile -f _CoqProject -o Makefile', cwd=COQ)
-        rc, out = sh('timeout 2400 make -j%s 2>&1' % os.environ.get('VERIF_JOBS', '16'), timeout=2500, cwd=COQ)
-        ok = rc == 0
-        if ok and (not os.path.exists(MODELRUN) or
-                   os.path.getmtime(MODELRUN) < max(os.path.getmtime(os.path.join(r, f))
-                                                    for d in ('coq/Model', 'coq/Base', 'coq/Extract', 'coq/Gen', 'ocaml')
-                                                    for r, _, fs in os.walk(os.path.join(VERIF, d)) for f in fs
-                                                    if f.endswith(('.v', '.ml')))):
-            rc2, out2 = sh(os.path.join(VERIF, 'harness', 'build_model.sh'), timeout=1500)
-            out += out2
-            ok = ok and rc2 == 0
-        return ok, out
+        jobs = os.environ.get('VERIF_JOBS', '16')
+        rc, out = sh('timeout 2400 make -k -j%s 2>&1' % jobs, timeout=2500, cwd=COQ)
+        rc1, out1 = sh('timeout 2400 make -j%s Props/%s.vo 2>&1' % (jobs, prop), timeout=2500, cwd=COQ)
+        ok = rc1 == 0
+        log = out if rc != 0 else ''
+        log += out1 if rc1 != 0 else ''
+        for f in ('model.ml', 'model.mli', 'cdp_model.ml', 'cdp_model.mli'):
+            if os.path.exists(os.path.join(COQ, f)):
+                os.remove(os.path.join(COQ, f))
+        want = 'cdp' if prop == 'C07' else 'main'
+        binp = os.path.join(BUILD, 'cdprun' if want == 'cdp' else 'modelrun')
+        src_t = _newest(['coq/Gen', 'coq/Base', 'ocaml/cdp', 'coq/Extract'], ('.v', '.ml')) if want == 'cdp' else \
+            _newest(['coq/Model', 'coq/Base', 'coq/Extract', 'ocaml'], ('.v', '.ml'))
+        if not os.path.exists(binp) or os.path.getmtime(binp) < src_t:
+            rc2, out2 = sh([os.path.join(VERIF, 'harness', 'build_model.sh'), want], timeout=2000)
+            if rc2 != 0:
+                log += out2
+                ok = False
+        return dict(ok=ok, log=log, translator_ok=tok, translator_msg=tmsg)
 
 
 def gate():
@@ -193,8 +230,10 @@ class Check:
         self.findings = [f for f in load_findings().get('findings', []) if f['property'] == prop]
 
     # ---- proof side ----
-    def prove(self, pre=None):
-        ok, log = coq_make(pre)
+    def prove(self):
+        mk = coq_make(self.prop)
+        ok, log = mk['ok'], mk['log']
+        self.translator = (mk['translator_ok'], mk['translator_msg'])
         g = gate()
         pr = compile_props(self.prop) if ok else dict(ok=False, theorems=[], declared=[], log=log[-3000:])
         nl, files = lemma_count(self.prop)
